@@ -61,7 +61,9 @@ class _ModelOperands:
         self.w = w
 
     def __getitem__(self, i):
-        hh = self.w.handles[i]
+        hh = self.w.handles[i] if i < len(self.w.handles) else None
+        if hh is None:
+            raise Skip()
         rr = self.w.res[self.w.objs[hh.oid].rid]
         return deep(get_path(rr.model, hh.path)) if has_path(rr.model, hh.path) else None
 
@@ -238,12 +240,12 @@ class World:
     def revalidate(self, rid):
         r = self.res[rid]
         for h in self.handles:
-            if h.state == "attached" and self.objs[h.oid].rid == rid and h.path:
+            if h is not None and h.state == "attached" and self.objs[h.oid].rid == rid and h.path:
                 if not has_path(r.model, h.path) or kind_of(get_path(r.model, h.path)) != h.kind:
                     h.state = "dropped"
 
     def handles_of(self, oid):
-        return [h for h in self.handles if h.oid == oid]
+        return [h for h in self.handles if h is not None and h.oid == oid]
 
     def _under(self, h, prefix, strict=True):
         p = h.path
@@ -333,7 +335,7 @@ class World:
             if ob.rid == rid:
                 ob.alive = False
         for h in self.handles:
-            if self.objs[h.oid].rid == rid:
+            if h is not None and self.objs[h.oid].rid == rid:
                 h.state = "dropped"
         self.add_object(rid, st.get("wc", False))
 
@@ -399,7 +401,7 @@ class World:
     # -- operations ---------------------------------------------------------------------------------
     def st_op(self, st):
         hid = st["hid"]
-        if hid >= len(self.handles):
+        if hid >= len(self.handles) or self.handles[hid] is None:
             raise Skip()
         h = self.handles[hid]
         ob = self.objs[h.oid]
@@ -412,7 +414,7 @@ class World:
             raise Skip()
         if getattr(r, "corrupt", False) and "corrupt_ok" not in self.cfg:
             raise Skip()
-        handle_nodes = [x.node for x in self.handles]
+        handle_nodes = [x.node if x is not None else None for x in self.handles]
         args = M.dec(st.get("args", []), handle_nodes)
         margs = M.dec(st.get("args", []), _ModelOperands(self))
         buffered = self.is_buffered(ob) if hasattr(ob.o, "buffered") else False
@@ -491,8 +493,17 @@ class World:
             else:
                 newp = None
             if newp is not None and has_path(r.model, newp):
-                nh = Handle(len(self.handles), h.oid, newp, lres_raw, kind_of(get_path(r.model, newp)))
+                hid_new = st.get("hid_new")
+                if hid_new is None or hid_new < len(self.handles):
+                    hid_new = len(self.handles)
+                st["hid_new"] = hid_new   # stable handle ids: removing an earlier step must not renumber later ones
+                while len(self.handles) < hid_new:
+                    self.handles.append(None)
+                nh = Handle(hid_new, h.oid, newp, lres_raw, kind_of(get_path(r.model, newp)))
                 self.handles.append(nh)
+            elif st.get("hid_new") is not None:
+                while len(self.handles) <= st["hid_new"]:
+                    self.handles.append(None)
 
     def _model_operands(self, enc, margs):
         """Replace {"$handle": i} operands by the model's plain value of that handle (for comparisons)."""
@@ -668,6 +679,33 @@ class World:
         self.stat("ctx_exit")
         self.after_exit(c, cls, flushed, res, pre)
 
+    def st_enter_group(self, st):
+        """Per-object contexts of several objects entered back-to-back (a common buffered state)."""
+        for oid in st["oids"]:
+            self.st_enter({"t": "enter", "ctx": "obj", "oid": oid})
+
+    def st_exit_group(self, st):
+        """Leave the n innermost contexts back-to-back; oracles are evaluated after the last one only."""
+        saved = self.oracles
+        n = min(st["n"], len(self.ctx))
+        if n == 0:
+            raise Skip()
+        order = st.get("order")
+        if order:
+            # exit order of per-object contexts is a generated choice: reorder the top n entries
+            top = self.ctx[-n:]
+            if all(c["kind"] == "obj" for c in top) and sorted(order) == list(range(n)):
+                self.ctx[-n:] = [top[i] for i in order]
+        try:
+            for i in range(n):
+                if i < n - 1:
+                    self.oracles = saved - {"backend", "bufsize", "nowrite", "frozen"}
+                else:
+                    self.oracles = saved
+                self.st_exit({"t": "exit"})
+        finally:
+            self.oracles = saved
+
     def after_exit(self, c, cls, flushed, res, pre):
         """Default exit semantics (no outside writer): exits never raise; flushed files hold the logical content."""
         if isinstance(res, M.Raised):
@@ -722,8 +760,8 @@ class World:
     # -- final checks ----------------------------------------------------------------------------------
     def finish(self):
         """Leave all contexts (innermost first) and run the end-of-run oracles."""
-        while self.ctx:
-            self.st_exit({"t": "exit"})
+        if self.ctx:
+            self.st_exit_group({"t": "exit_group", "n": len(self.ctx)})
         if "backend" in self.oracles:
             self.check_backend(what="at end of run")
         if "locks" in self.oracles:
